@@ -133,6 +133,7 @@ def _r7_uniqueness(ctx, M):
 def run(ctx):
     # "the address a client is told" is the other half of "one address, one client": the reply names the recorded lease (C13.R6)
     ctx.include("C13", rules=("R6",))
+    ctx.include("C18", rules=("R5",))      # "across restarts": the store is the file, never a database in memory
     from . import c19
     c19.lease_bounds(ctx)      # a lease time beyond 2^32 - now wraps the stored expiry into the past
     P = ctx.P
